@@ -22,6 +22,7 @@ def run(prog, run):
     r5(prog, run)
     r6(prog, run)
     r7(prog, run)
+    r8(prog, run)
 
 
 def r1(prog, run):
@@ -443,3 +444,61 @@ def r6(prog, run):
                               % (me[-40:], f.fmt(p, inline=False)[:60]))
     if n_uses < 2:
         raise AnalysisBroken('C19.R6: uses of the announced size not found')
+
+
+# --------------------------------------------------------------------------- R8: the destination starts empty; the offer carries the hash
+def r8(prog, run):
+    from .. import cfgx
+    rid = run.rule('C19.R8', 'the file an incoming job writes to starts empty (a file the job opens itself is opened write-only or with Truncate, never appending or read-write '
+                             'without truncation: size and hash only cover the received blocks, an old tail would survive a "successful" transfer); and the hash the sender '
+                             'computes is stored in the file description before the offer is serialized and sent (the receiver verifies content only against the announced hash)',
+                   floor=2)
+    n = 0
+    for f in prog.fns.values():
+        if f.entry is None or not f.file.endswith('QXmppTransferManager.cpp') or not f.qname.startswith('QXmppTransferJob::accept'):
+            continue
+        for i, c in f.calls():
+            if (f.cname(c) or '') not in ('QFile::open', 'QIODevice::open', 'QFileDevice::open', 'QSaveFile::open') or not c.get('args'):
+                continue
+            n += 1
+            run.instance(rid)
+            flags = {f.nodes[j]['name'].split('::')[-1] for j in f.walk(c['args'][0]) if f.nodes[j]['k'] == 'enum'}
+            ok = flags == {'WriteOnly'} or ('Truncate' in flags and 'Append' not in flags)
+            if ok:
+                run.ok(rid, f.loc(i), 'destination opened with %s (truncating)' % '|'.join(sorted(flags)))
+            else:
+                run.violation(rid, '%s#destination-not-truncated' % f.outer_name(), f.loc(i),
+                              '%s opens the destination with %s: an existing file is not emptied, so bytes of the old file remain behind (or in front of) the received ones while '
+                              'size and hash - computed over the received blocks - still match and the job reports success' % (f.display()[:50], '|'.join(sorted(flags)) or '?'))
+    if not n:
+        raise AnalysisBroken('C19.R8: QXmppTransferJob::accept(filePath) no longer opens a file')
+    # the hash is in the file description when the offer is made
+    cands = [f for f in prog.fns_named('QXmppTransferManager::sendFile') if f.entry is not None and any((f.cname(c) or '').endswith('QXmppTransferFileInfo::setHash') for _, c in f.calls())]
+    if len(cands) != 1:
+        raise AnalysisBroken('C19.R8: the sendFile() overload that hashes the file was not identified')
+    sf = cands[0]
+
+    def event_of(g, nid):
+        c = g.nodes[nid]
+        if c['k'] != 'call':
+            return None
+        cn = g.cname(c) or ''
+        if cn.endswith('QXmppTransferFileInfo::setHash'):
+            o = g.nodes[g.resolve(c['obj'])] if c.get('obj') is not None else {}
+            return 'hash' if o.get('k') == 'var' and o.get('vk') == 'local' else 'hash-elsewhere'
+        if cn == 'QXmppTransferManager::sendFile' and g.id == sf.id:
+            return 'offer'
+        return None
+    seqs = cfgx.effect_sequences(prog, sf, event_of, follow=lambda g: False)
+    run.instance(rid)
+    if not any('offer' in q for q in seqs):
+        raise AnalysisBroken('C19.R8: the hashing sendFile() no longer delegates to the overload that makes the offer')
+    bad = [q for q in seqs if ('hash' in q and 'offer' in q and q.index('hash') > q.index('offer')) or 'hash-elsewhere' in q]
+    if bad:
+        run.violation(rid, 'sendFile#hash-after-offer', sf.loc(),
+                      'sendFile(jid, filePath) stores the file hash after (or outside) the file description it hands to the overload that serializes and sends the offer (effect order %s): '
+                      'the offer goes out without a hash, the receiver has nothing to verify the content against and accepts altered blocks of the right length' % list(bad[0]))
+    elif not any('hash' in q for q in seqs):
+        run.violation(rid, 'sendFile#no-hash', sf.loc(), 'sendFile(jid, filePath) never stores a hash in the file description')
+    else:
+        run.ok(rid, sf.loc(), 'the hash is stored in the local file description before the offer is made (%s)' % sorted(seqs))
